@@ -306,7 +306,11 @@ func exhaustion(total int) func(x *exec, note func(string)) int64 {
 			}
 			if x.v != nil {
 				if i >= 16384 && (x.v.sig == "channel-number:shared-by-two-peers" || x.v.sig == "channel-number:out-of-range") {
-					x.v = &viol{"channel-exhaustion:number-reused-or-out-of-range-for-peer-16385", fmt.Sprintf("peer #%d (%s): %s", i+1, x.extra[name], x.v.detail)}
+					// The property quantifies over "any set of up to 16384 peers": what happens to peer
+					// #16385 is outside it, so this is recorded as an observation, not a violation
+					// (the client wraps around and re-uses 0x4000; see DESIGN.md, false alarms corrected).
+					note(fmt.Sprintf("exhaustion (outside the property's quantifier): peer #%d (%s): %s", i+1, x.extra[name], x.v.detail))
+					x.v = nil
 				}
 
 				break
